@@ -210,12 +210,31 @@ fn resolvable_order(p: &Parsed) -> Option<Vec<usize>> {
     None
 }
 
-fn collect_term_defs(t: &J, out: &mut HashMap<String, J>) {
-    let mut m = HashMap::new();
-    collect_defs(t, &mut m);
-    for (k, v) in m {
-        out.entry(k).or_insert_with(|| v.clone());
+/// name -> definition term; returns false when one name has two different definitions
+fn collect_term_defs(t: &J, out: &mut HashMap<String, J>) -> bool {
+    fn walk(t: &J, out: &mut HashMap<String, J>, ok: &mut bool) {
+        match sk(t) {
+            "array" => walk(&t["items"], out, ok),
+            "union" => t["branches"].as_array().into_iter().flatten().for_each(|b| walk(b, out, ok)),
+            "record" | "enum" | "fixed" => {
+                let n = t["name"].as_str().unwrap_or("").to_string();
+                match out.get(&n) {
+                    Some(prev) if prev != t => *ok = false,
+                    Some(_) => {}
+                    None => {
+                        out.insert(n, t.clone());
+                    }
+                }
+                if sk(t) == "record" {
+                    t["fields"].as_array().into_iter().flatten().for_each(|f| walk(&f["type"], out, ok));
+                }
+            }
+            _ => {}
+        }
     }
+    let mut ok = true;
+    walk(t, out, &mut ok);
+    ok
 }
 
 /// A conforming value for a schema term; `None` when the type has no value within the fuel
@@ -262,6 +281,40 @@ fn value_gen(rng: &mut Rng, t: &J, env: &HashMap<String, J>, fuel: usize) -> Opt
     }
 }
 
+/// Does the schema term have a finite value?  (A record that contains itself directly has none;
+/// decoding with such a schema recurses without consuming input and overflows the stack of the
+/// crate's decoder -- the harness must not walk into that.)
+fn inhabited(t: &J, env: &HashMap<String, J>, open: &mut Vec<String>) -> bool {
+    match sk(t) {
+        "ref" => {
+            let Some(n) = t["name"].as_str() else { return false };
+            if open.iter().any(|x| x == n) {
+                return false;
+            }
+            match env.get(n) {
+                Some(target) => {
+                    let target = target.clone();
+                    inhabited(&target, env, open)
+                }
+                None => false,
+            }
+        }
+        "record" => {
+            let n = t["name"].as_str().unwrap_or("").to_string();
+            if open.iter().any(|x| *x == n) {
+                return false;
+            }
+            open.push(n);
+            let r = t["fields"].as_array().map(|fs| fs.iter().all(|f| inhabited(&f["type"], env, open))).unwrap_or(false);
+            open.pop();
+            r
+        }
+        "union" => t["branches"].as_array().map(|bs| bs.iter().any(|b| inhabited(b, env, open))).unwrap_or(false),
+        "other" | "none" => false,
+        _ => true,
+    }
+}
+
 struct PermRuns {
     perm: Vec<usize>,
     first_ok: Option<Parsed>,
@@ -285,15 +338,27 @@ fn datum_exchange(a: &Parsed, pa: &[usize], b: &Parsed, pb: &[usize], rng: &mut 
     let (Some(oa), Some(ob)) = (resolvable_order(a), resolvable_order(b)) else { return };
     let refs_a = all_refs(a);
     let refs_b = all_refs(b);
+    // a name with two different definitions: which one the crate binds is not the harness' call
     let mut env = HashMap::new();
+    let mut unique = true;
     for sc in &refs_a {
-        collect_term_defs(&project(sc), &mut env);
+        unique &= collect_term_defs(&project(sc), &mut env);
+    }
+    let mut env_b = HashMap::new();
+    for sc in &refs_b {
+        unique &= collect_term_defs(&project(sc), &mut env_b);
+    }
+    if !unique {
+        return;
     }
     let n = pa.len();
     let upto = if a.main.is_some() { n + 1 } else { n };
     for i in 0..upto {
         let (Some(sa), Some(sb)) = (pick_schema(a, pa, i), pick_schema(b, pb, i)) else { continue };
         let term = project(sa);
+        if !inhabited(&term, &env, &mut vec![]) || !inhabited(&project(sb), &env_b, &mut vec![]) {
+            continue;
+        }
         let v = match guarded(AssertUnwindSafe(|| value_gen(rng, &term, &env, 4))) {
             Ok(Some(v)) => v,
             _ => continue,
